@@ -139,7 +139,8 @@ Print Assumptions C16_trie_contents.
      st_items fixed (get_subtrie (trie_of t) q) = Ok (map (fun pt => (fst pt, pt)) (nodes s))
    and st_keys (trie_of t) = map fst (nodes t).
    REFUTED on the faithful model for trees with a node of more than 28 children (class K_wide).
-   PROVED under the guard K_wide t = false for the keys of the root view (C16_trie_keys_partial);
+   PROVED under the guard K_wide t = false for the ROOT view: keys (C16_trie_keys_partial), items and
+   values (C16_root_items, C16_root_values, below);
    the sub-view / items half under the same guard is stated here but NOT proved yet (missing:
    prefix filtering of [nodes t] = shifted [nodes s], assoc lookup); the correspondence check and the
    spec-side oracle evaluate it on every generated tree; proved instance: C16_trie_view_witness. *)
@@ -162,12 +163,26 @@ Theorem C16_trie_getitem_refuted :
 Proof. exact trie_getitem_refuted. Qed.
 Print Assumptions C16_trie_getitem_refuted.
 
-(* root view of the pinned tree (fixed = false) cuts value paths to the last index: K_rootitems *)
-Theorem C16_root_items_refuted :
+(* root view of the current code (repaired by /repo commit 0065353, model variant fixed = true):
+   items() / values() of tree.trie() list every node with its FULL path (guard: no node with more than
+   28 children, class K_wide) *)
+Theorem C16_root_items : forall t, K_wide t = false ->
+  st_items true (trie_of t) = Ok (map (fun pt => (fst pt, pt)) (nodes t)).
+Proof. exact root_items_repaired. Qed.
+Print Assumptions C16_root_items.
+
+Theorem C16_root_values : forall t, K_wide t = false -> st_values true (trie_of t) = Ok (nodes t).
+Proof. exact root_values_repaired. Qed.
+Print Assumptions C16_root_values.
+
+(* HISTORY of the fixed defect trie-root-items (class K_rootitems): the code BEFORE the fix
+   (model variant fixed = false) cut root-view value paths to their last index.  Not a statement about
+   the current code; the witness is replayed on the implementation as a corpus case that must pass. *)
+Theorem C16_root_items_defect_history :
   exists t, max_degree t <= 28 /\
             st_items false (trie_of t) <> Ok (map (fun pt => (fst pt, pt)) (nodes t)).
-Proof. exact root_items_refuted. Qed.
-Print Assumptions C16_root_items_refuted.
+Proof. exact root_items_defect_history. Qed.
+Print Assumptions C16_root_items_defect_history.
 
 Example C16_trie_view_witness :
   st_items true (trie_of deep_tree) = Ok (map (fun pt => (fst pt, pt)) (nodes deep_tree)).
